@@ -440,13 +440,14 @@ def E2() -> bool:
 
 
 def _shards(tier):
+    # (config, prefix depth): deeper prefixes where a single shard would exceed its time budget
     if tier == "quick":
-        cfgs = [{"producers": 1, "msgs": 2, "P": 2, "F": 1}, {"producers": 0, "msgs": 2, "P": 1, "F": 0, "writers": 2}]
+        cfgs = [({"producers": 1, "msgs": 2, "P": 2, "F": 1}, 6), ({"producers": 0, "msgs": 2, "P": 1, "F": 0, "writers": 2}, 9), ({"producers": 0, "msgs": 1, "P": 1, "F": 1, "cycles": 2}, 4)]
     else:
-        cfgs = [{"producers": 1, "msgs": 2, "P": 3, "F": 2}, {"producers": 2, "msgs": 1, "P": 2, "F": 1}, {"producers": 1, "msgs": 1, "P": 2, "F": 1, "cycles": 2}, {"producers": 1, "msgs": 2, "P": 2, "F": 0, "writers": 2}]
+        cfgs = [({"producers": 1, "msgs": 2, "P": 3, "F": 2}, 6), ({"producers": 2, "msgs": 1, "P": 2, "F": 1}, 6), ({"producers": 1, "msgs": 1, "P": 2, "F": 1, "cycles": 2}, 9), ({"producers": 0, "msgs": 2, "P": 2, "F": 0, "writers": 2}, 10)]
     out = []
-    for base in cfgs:
-        out += [dict(base, prefix=p) for p in enumerate_prefixes(body_E1, "X", {}, base, 9 if base.get("writers") else 6)]
+    for base, depth in cfgs:
+        out += [dict(base, prefix=p) for p in enumerate_prefixes(body_E1, "X", {}, base, depth)]
     return out
 
 
@@ -459,6 +460,6 @@ OBLIGATIONS_TAIL = [
 OBLIGATIONS = [
     Ob("E1", E1, body_E1, "X", desc="producers / reader / stop request at line granularity in logwriter.py with destination failure masks", functions=["ThreadedWriter.__init__", "startService", "stopService", "__call__", "_reader"],
        shards=_shards, twin=[{"producers": 1, "msgs": 2, "P": 2, "F": 1, "twin_label": "failure-then-more"}, {"producers": 1, "msgs": 2, "P": 2, "F": 1, "twin_label": "offered-before-stop"}], timeout={"quick": 100, "thorough": 1500},
-       bounds={"quick": "1 producer x 2 messages racing the stop request and the reader, <= 2 preemptions, <= 1 destination failure; the same with a second idle ThreadedWriter running (<= 1 preemption)", "thorough": "<= 3 preemptions / 2 failures; 2 producers x 1 message; a second start/stop cycle"}),
+       bounds={"quick": "1 producer x 2 messages racing the stop request and the reader, <= 2 preemptions, <= 1 destination failure; the main thread offering 2 messages with a second idle ThreadedWriter running (<= 1 preemption); one or two start/stop cycles of the same writer with 1 message each (<= 1 preemption, <= 1 failure)", "thorough": "<= 3 preemptions / 2 failures; 2 producers x 1 message; a second start/stop cycle with a producer thread (<= 2 preemptions); second writer with <= 2 preemptions"}),
 ]
 OBLIGATIONS += OBLIGATIONS_TAIL
